@@ -304,11 +304,47 @@ def readable(x: str) -> str:
         return x
 
 
+ALL_PIDS = {"C%02d" % i for i in range(1, 19)}
+IBAN_PIDS = ALL_PIDS - {"C04", "C16", "C18"}
+
+
+def problem_concerns(problem: str) -> set:
+    """Which properties rest on the part of the tree a translator problem is about.  (A problem in the
+    reading of a German method class says nothing about IBAN structure checks, and so on; a problem that
+    cannot be attributed concerns every property.)"""
+    p = problem
+    if p.startswith(("DE hook", "DE class")) or re.match(r"algorithm DE:", p) or p.startswith("probe: DE"):
+        return {"C05", "C07", "C14", "C15"}
+    if p.startswith("algorithm ") or p.startswith("probe:"):
+        return {"C05", "C06", "C08", "C09", "C13", "C14", "C15"}
+    if p.startswith("unicode:"):
+        return ALL_PIDS - {"C18"}
+    if p.startswith("pycountry"):
+        return {"C04", "C05", "C17"}
+    if p.startswith("registry value"):
+        return {"C18"}
+    if p.startswith("bank entry"):
+        return {"C07", "C12", "C13", "C17", "C18"}
+    if "__new__(*__getnewargs__())" in p:
+        return {"C16"}
+    if p.startswith("effect probe failed"):
+        return {"C14", "C15"}
+    if p.startswith(("unknown component", "Component order", "country entry")) or \
+            re.match(r"[A-Z]{2}: (position|pattern|bban_spec)", p) or "not a natural number" in p:
+        return IBAN_PIDS | {"C18"}
+    return ALL_PIDS
+
+
 def finish(run: Run, audit: dict, gen_problems: list, gen_files: dict, rule: str,
            level_note: str, extra_cov: dict | None = None) -> int:
     """Write evidence, print the verdict lines, return the exit code."""
     os.makedirs(REPLAYS, exist_ok=True)
     pid = run.pid
+    other_problems = [p for p in gen_problems if pid not in problem_concerns(p)]
+    gen_problems = [p for p in gen_problems if pid in problem_concerns(p)]
+    if other_problems:
+        run.notes.append("translator problems about parts of the tree this property does not rest on: "
+                         + "; ".join(sorted(set(other_problems))[:6]))
     known = known_findings(pid)
     broken = []
     for name, why in audit["failed"].items():
